@@ -187,3 +187,35 @@ def handshake_family(work, name, family, tier, seed, opts=None, workers=16):
             "consumed": consumed, "accepted": accepted, "viols": viols, "traces": traces,
             "times": {"gen": round(t1 - t0, 1), "replay": round(t2 - t1, 1), "validate": round(t3 - t2, 1)},
             "subst": dict(subst, opts=opts)}
+
+
+def walk_family(work, name, module, cfg_tpl, family, tier, seed, workers=16, opts=None, extra_subst=None):
+    """Scenarios whose expectation travels in `exp` (TraceWalk.tla)."""
+    subst = dict(SEED=seed, FAMILY=family, TIER=tier)
+    if extra_subst:
+        subst.update(extra_subst)
+    t0 = time.time()
+    scripts, n, gst = generate(module, cfg_tpl, subst, work, name, heap="6g")
+    t1 = time.time()
+    src = scripts
+    if opts:
+        src = os.path.join(work, name + ".opts.ndjson")
+        with open(scripts) as f, open(src, "w") as o:
+            for i, line in enumerate(f):
+                if i == 0:
+                    o.write(line)
+                    continue
+                d = json.loads(line)
+                d["opts"] = dict(d.get("opts") or {}, **opts)
+                o.write(json.dumps(d) + "\n")
+    traces, info = replay(src, work, name, workers=workers)
+    t2 = time.time()
+    tracecfg = os.path.join(work, name + ".tracecfg.json")
+    json.dump({"known": known_pairs()}, open(tracecfg, "w"))
+    res = validate("TraceWalk", "Trace_Console.cfg", traces, tracecfg, work)
+    accepted, consumed, events, viols = summarise(res)
+    t3 = time.time()
+    return {"name": name, "scripts": n, "scripts_file": src, "gen_states": gst["distinct"], "events": events,
+            "consumed": consumed, "accepted": accepted, "viols": viols, "traces": traces,
+            "times": {"gen": round(t1 - t0, 1), "replay": round(t2 - t1, 1), "validate": round(t3 - t2, 1)},
+            "subst": dict(subst, opts=opts)}
